@@ -31,13 +31,11 @@ Values == { <<>>, <<"refs/heads">>, <<"a", "LF", "b">>, <<"LF">>, <<"v", "LF", "
 Recs == {[key |-> <<k>>, hasv |-> TRUE, value |-> v] : k \in Keys, v \in Values}
         \cup {[key |-> <<k>>, hasv |-> FALSE, value |-> <<>>] : k \in {"foo.bar", "core.bare", "refgroup.name"}}
 
-RECURSIVE Listings(_)
-Listings(n) == IF n = 0 THEN {<<>>}
-               ELSE LET L == Listings(n - 1) IN L \cup {Append(l, r) : l \in {x \in L : Len(x) = n - 1}, r \in Recs}
-
+\* a listing grows record by record: every listing of up to MaxRecs records is a state (TLC never has
+\* to build the set of all listings, and its workers share them)
 VARIABLES st, x
-Init == st = "start" /\ x = <<>>
-Next == st = "start" /\ st' = "chosen" /\ x' \in Listings(MaxRecs)
+Init == st = "chosen" /\ x = <<>>
+Next == Len(x) < MaxRecs /\ st' = st /\ \E r \in Recs : x' = Append(x, r)
 Spec == Init /\ [][Next]_<<st, x>>
 
 Reader(bytes) == IF NulFirstFix THEN ParseNulFirst(bytes) ELSE ParseLfFirst(bytes)
